@@ -136,6 +136,17 @@ def variant_siblings(ctx, rule="R03.2"):
             txt = " ; ".join(norm_stmt(s) for s in fn.body if not (isinstance(s, ast.Expr) and isinstance(s.value, ast.Constant)))
             bodies[pre] = txt.replace("self.%s(" % base, "self.BASE(")
         ctx.check(len(set(bodies.values())) == 1, rule, BASE + "::CovModel.*_%s" % suffix, "the three %s variants are identical up to the base function: %s" % (suffix, list(bodies.values())[0][:110]), "siblings:" + suffix)
+    # the Yadrenko variants evaluate the base function at the chordal lag of the given great-circle distance, nothing else done to it
+    from ..small import _sym_subst, sym_eval, sym_text
+
+    for pre, base in fam.items():
+        fn = cm.methods["%s_yadrenko" % pre]
+        rets = [r for r in ast.walk(fn) if isinstance(r, ast.Return) and r.value is not None]
+        arg = "?"
+        if len(rets) == 1 and isinstance(rets[0].value, ast.Call) and ast.unparse(rets[0].value.func) == "self.%s" % base and len(rets[0].value.args) == 1:
+            arg = sym_text(_sym_subst(rets[0].value.args[0], sym_eval(fn.body, stop=rets[0])))
+        ctx.check(arg == "great_circle_to_chordal(zeta, self.geo_scale)", rule, BASE + "::CovModel.%s_yadrenko" % pre,
+                  "%s is evaluated at great_circle_to_chordal(zeta, geo_scale): %s" % (base, arg[:90]), "yadrenko-lag")
     ax = cm.methods["vario_axis"]
     ifs = [s for s in ax.body if isinstance(s, ast.If)]
     rets = [s for s in ax.body if isinstance(s, ast.Return)]
